@@ -171,7 +171,7 @@ Definition py_sum (l : list Z) : Z := fold_right Z.add 0 l.
 Definition py_slice_set (l : list Q) (lo hi : Z) (v : list Q) : res (list Q) :=
   let n := zlen l in let a := clip_index n lo in let b := clip_index n hi in
   if Nat.eqb (Z.to_nat (b - a)) (List.length v)
-  then Ok (firstn (Z.to_nat a) l ++ v ++ skipn (Z.to_nat b) l) else Raise ValueError.
+  then Ok (firstn (Z.to_nat a) l ++ v ++ skipn (Z.to_nat (Z.max a b)) l) else Raise ValueError.      (* an empty slice (b <= a) sits at a *)
 
 (* a[lo:stop:-1]: indices lo, lo-1, ..., down to (not including) stop; stop = None runs down to index 0 *)
 Definition py_slice_rev (l : list Q) (lo : Z) (stop : option Z) : list Q :=
